@@ -890,6 +890,18 @@ def _property_slot(K, name):
 
 def _mpis_names(prog, K, after=None):
     """Names K().__mpis__ yields (class-level tuple, or a generator property chaining super().__mpis__), else None."""
+    if after is None:
+        # decided by the checker's own evaluation of the property on a bare instance: loops, `yield from`, super() chains and
+        # tuple concatenations all denote the same sequence of names
+        from . import ceval
+        try:
+            ev = ceval.Evaluator(prog)
+            v = ev.get(ceval.Obj(K, {}), '__mpis__')
+            names = list(ev._iter(v))
+            if all(isinstance(x, str) for x in names):
+                return names
+        except (ceval.NoEval, ceval.Raised, ceval.Diverged):
+            pass
     mro = K.mro()
     if after is not None:
         mro = mro[mro.index(after) + 1:]
@@ -911,7 +923,7 @@ def _mpis_names(prog, K, after=None):
             m = re.match(r"^'(\w+)'$", t)
             if m:
                 names.append(m.group(1))
-            elif re.match(r'^EACH\((\$[\d.]+) in super\(\)\.__mpis__;\1\)$', t):
+            elif re.match(r'^EACH\((\$[\d.]+) in super\(\)\.__mpis__;\1\)$', t) or t == '*super().__mpis__':
                 sup = _mpis_names(prog, K, after=c)
                 if sup is None:
                     return None
